@@ -63,8 +63,8 @@ C15All(u) == { C15Cancel(pr, e, c) : pr \in {<<"udp", "", FALSE>>, <<"tcp", "syn
 (* C19: the parameter lattice.  Params.tla in one place: what a parameter set MEANS - rejected, or executed as      *)
 (* (ttl range, address, port, probe kind).                                                                         *)
 C19Scen(pr, mn, mx, port, host, lbl) ==
-    LET ex == Expect(pr[1], pr[2], mn, mx, port, host) IN
-    [id |-> "C19/" \o pr[1] \o pr[2] \o "/" \o ToString(mn) \o "-" \o ToString(mx) \o "/" \o ToString(port) \o "/" \o host \o "/" \o lbl,
+    LET ex == ExpectW(pr[1], pr[2], mn, mx, port, host, pr[3]) IN
+    [id |-> "C19/" \o pr[1] \o pr[2] \o (IF IsName(host) /\ pr[3] THEN "6" ELSE "") \o "/" \o ToString(mn) \o "-" \o ToString(mx) \o "/" \o ToString(port) \o "/" \o host \o "/" \o lbl,
      label |-> pr[1] \o pr[2] \o "/" \o lbl \o "/ttl" \o ToString(mn) \o "-" \o ToString(mx) \o "/port" \o ToString(port) \o (IF lbl = "host" THEN "/" \o host ELSE ""),
      kind |-> "run", per_flow |-> TRUE, sack_perm |-> TRUE, isn32 |-> <<4660, 1>>, extra |-> [expect |-> ex],
      run |-> [Run(pr[1], pr[2], pr[3], mn, mx, 1, 0) EXCEPT !.port = port, !.hostname = host, !.timeout_ms = 120, !.delay_ms = 1,
@@ -72,8 +72,8 @@ C19Scen(pr, mn, mx, port, host, lbl) ==
      path |-> PathOf([t \in {1} |-> <<>>])]
 \* the same lattice through the HTTP API (min TTL is fixed to 1 there; delay 50 ms; non-numeric values fall back to defaults)
 C19Http(pr, mx, port, host) ==
-    LET ex == Expect(pr[1], pr[2], 1, mx, port, host) IN
-    [id |-> "C19/http/" \o pr[1] \o pr[2] \o "/" \o ToString(mx) \o "/" \o ToString(port) \o "/" \o host,
+    LET ex == ExpectW(pr[1], pr[2], 1, mx, port, host, pr[3]) IN
+    [id |-> "C19/http/" \o pr[1] \o pr[2] \o (IF IsName(host) /\ pr[3] THEN "6" ELSE "") \o "/" \o ToString(mx) \o "/" \o ToString(port) \o "/" \o host,
      label |-> "http/" \o pr[1] \o pr[2] \o "/ttl1-" \o ToString(mx) \o "/port" \o ToString(port) \o "/" \o host,
      kind |-> "run", per_flow |-> TRUE, sack_perm |-> TRUE, isn32 |-> <<4660, 1>>, extra |-> [expect |-> ex],
      run |-> [Run(pr[1], pr[2], pr[3], 1, mx, 1, 0) EXCEPT !.port = port, !.hostname = host, !.timeout_ms = 120, !.delay_ms = 50, !.via = "http",
@@ -92,6 +92,10 @@ C19All(u) ==
     \cup { C19Http(pr, 3, 33434, hr.h) : pr \in {<<"udp", "", FALSE>>, <<"icmp", "", FALSE>>}, hr \in {r \in HostTable : r.h # ""} }
     \cup { C19Scen(pr, 1, 3, 0, hr.h, "host") : pr \in {<<"udp", "", FALSE>>, <<"tcp", "syn", FALSE>>, <<"icmp", "", FALSE>>}, hr \in HostTable \cup Unroutable }
     \cup { C19Http(pr, 3, 33434, hr.h) : pr \in {<<"udp", "", FALSE>>, <<"icmp", "", FALSE>>}, hr \in Unroutable }
+    \* host names: resolution picks the address of the requested family (ipv6 flag), or the request is rejected
+    \cup { C19Scen(<<p, "", w6>>, 1, 3, 0, nr.h, "host") : p \in {"udp", "icmp"}, w6 \in BOOLEAN, nr \in NameTable }
+    \cup { C19Scen(<<"tcp", "syn", w6>>, 1, 3, 443, nr.h, "host") : w6 \in BOOLEAN, nr \in NameTable }
+    \cup { C19Http(<<p, "", w6>>, 3, 33434, nr.h) : p \in {"udp", "icmp"}, w6 \in BOOLEAN, nr \in NameTable }
     \* the protocol / method lattice again for requests that consist of end-to-end probes only, or of both kinds
     \cup { [C19Scen(<<p, m, FALSE>>, 1, 3, 443, T4, "proto") EXCEPT !.id = @ \o "/q" \o ToString(qe[1]) \o "e" \o ToString(qe[2]), !.label = @ \o "/q" \o ToString(qe[1]) \o "e" \o ToString(qe[2]),
                                                                      !.run.queries = qe[1], !.run.e2e = qe[2]]
